@@ -363,7 +363,13 @@ func runC04(o *out, r *rng, thorough bool, replay string) {
 			nt := g.evolve()
 			ptCid, err := certs.MakePowerTableCID(nt)
 			must(err)
-			ch := g.chain(1 + r.intn(3))
+			nts := 1 + r.intn(3)
+			if ci%5 == 2 && (j < k-1 || r.bool()) {
+				nts = 0 // the instance decided on its base alone (no new tipset): a normal outcome; the chain finalized so far stays empty
+			} else if r.chance(12) {
+				nts = 0
+			}
+			ch := g.chain(nts)
 			supp := gpbft.SupplementalData{PowerTable: ptCid}
 			if r.chance(30) {
 				supp.Commitments[0] = byte(1 + r.intn(200))
@@ -406,7 +412,18 @@ func runC04(o *out, r *rng, thorough bool, replay string) {
 				idx := r.intn(len(cs))
 				c := cs[idx]
 				tbl := tables[idx]
-				switch r.intn(16) {
+				switch r.intn(18) {
+				case 16, 17:
+					// a certificate from another fork: fully valid and signed by an honest quorum of the right table, but its chain
+					// starts at a sibling of the tipset finalized so far -- only the linkage can reject it
+					ts := *c.ECChain.TipSets[0]
+					ts.Key = []byte(fmt.Sprintf("fork-base-%d", idx))
+					c.ECChain = &gpbft.ECChain{TipSets: append([]*gpbft.TipSet{&ts}, c.ECChain.TipSets[1:]...)}
+					c.Signers, c.Signature = x.sign(g.backend, verifNet, tbl, c.GPBFTInstance, 0, gpbft.DECIDE_PHASE, c.SupplementalData, c.ECChain, minimalQuorum(r, tbl))
+					kind = "fork-signed"
+					if idx == 0 {
+						useBase = true
+					}
 				case 0:
 					c.GPBFTInstance += uint64(1 + r.intn(2))
 					kind = "instance"
@@ -535,6 +552,20 @@ func runC04(o *out, r *rng, thorough bool, replay string) {
 					o.violate("a corrupted certificate chain is rejected", "cert-forgery-accepted", in, kind)
 				}
 			}
+			// linkage, checked by the harness itself on whatever prefix was accepted (gotNext - next certificates): every finalized
+			// chain starts at the head finalized by its predecessor, the first one at the caller's base if one was given
+			if gotNext >= next && int(gotNext-next) <= len(cs) {
+				var head *gpbft.TipSet = bp
+				for i := 0; i < int(gotNext-next); i++ {
+					b := cs[i].ECChain.Base()
+					if head != nil && (b == nil || !b.Equal(head)) {
+						o.violate("every finalized chain starts at the head finalized by its predecessor (or at the caller's base)", "cert-unlinked-accepted", in,
+							fmt.Sprintf("variant %s: certificate #%d (instance %d) starts at %v but the chain finalized so far ends at %v; it was accepted (reported next instance %d)", kind, i, cs[i].GPBFTInstance, b, head, gotNext))
+						break
+					}
+					head = cs[i].ECChain.Head()
+				}
+			}
 			// the reported prefix: on rejection the function reports the instance and the power table that are in force for
 			// the first rejected certificate -- recomputed here by validating the certificates one at a time and keeping
 			// only what the ACCEPTING calls returned
@@ -546,9 +577,8 @@ func runC04(o *out, r *rng, thorough bool, replay string) {
 						break
 					}
 					wantNext, wantTbl = n2, t2
-					if ch2 != nil && !ch2.IsZero() {
-						wantBase = ch2.Head()
-					}
+					_ = ch2
+					wantBase = c.ECChain.Head() // the next certificate must start where this one ended (also when this one decided on its base alone)
 				}
 				cidOf := func(pe gpbft.PowerEntries) string {
 					c, err := certs.MakePowerTableCID(pe)
